@@ -335,6 +335,9 @@ impl Check for NftEnumerable {
     fn components(&self) -> serde_json::Value {
         serde_json::json!({"real": ["examples/nft-enumerable (from source)", "non_fungible::{Base, enumerable::Enumerable (sequential_mint, non_sequential_mint, index lists), burnable}", "Base wrapper: Base::sequential_mint + Base::mint with explicit ids"], "stub": ["Wallet"]})
     }
+    fn clock_step(&self, n: u32) -> Option<Step> {
+        Some(Step::Advance { n })
+    }
     fn probes(&self, _prop: &str) -> std::vec::Vec<&'static str> {
         vec!["probe.explicit_mint", "probe.explicit_remint_of_burned_id", "probe.full_sweep"]
     }
